@@ -106,18 +106,21 @@ structure RSt where
 def RSt.check (r : RSt) (c : Bool) (why : String) : RSt :=
   { r with err := r.err.or (if c then none else some why) }
 
+/-- is there a live block of kind `k`? -/
+def RSt.has (r : RSt) (k : Kind) : Bool := decide (0 < r.live.count k)
+
 def RSt.malloc (r : RSt) (k : Kind) : RSt := { r with live := k :: r.live }
 
 /-- `free(p)` for a non-`NULL` `p` allocated as `k` -/
 def RSt.free (r : RSt) (k : Kind) : RSt :=
-  { r.check (r.live.contains k) "free of a block that is not live (double free / dangling pointer)" with
+  { r.check (r.has k) "free of a block that is not live (double free / dangling pointer)" with
     live := r.live.erase k }
 
 /-- `free(p)` where `p` may be `NULL` -/
 def RSt.freeIf (r : RSt) (p : Bool) (k : Kind) : RSt := if p then r.free k else r
 
 /-- any access through `H` -/
-def useH (r : RSt) : RSt := r.check (r.live.contains .cookie) "http_cookie used after it was freed"
+def useH (r : RSt) : RSt := r.check (r.has .cookie) "http_cookie used after it was freed"
 
 /-- number of live blocks -/
 def RSt.total (r : RSt) : Nat := r.live.length
@@ -229,7 +232,7 @@ def docallbackR (r : RSt) : RSt :=
   let r := useH r
   let r := { r with ncb := r.ncb + 1 }
   let r := if r.pBody then
-      { r.check (r.live.contains .body) "a dangling body pointer is handed to the caller" with
+      { r.check (r.has .body) "a dangling body pointer is handed to the caller" with
         live := r.live.erase .body, handedBody := r.handedBody + 1 }
     else r
   cancelR { r with pBody := false }
@@ -286,7 +289,7 @@ def dropInterim (r : RSt) : RSt :=
 /-- the `realloc` of `addbody` (`if (H->res.bodylen + buflen > H->res_bodylen_alloc)`) -/
 def addbodyR (st : St) (pieceLen : Nat) (r : RSt) : RSt :=
   if st.bodylen + pieceLen > st.alloc then
-    if r.pBody then r.check (r.live.contains .body) "realloc of a dangling body pointer"
+    if r.pBody then r.check (r.has .body) "realloc of a dangling body pointer"
     else { r.malloc .body with pBody := true }
   else r
 
